@@ -9,7 +9,7 @@ from gen.gen import parse_header, strip_comments  # noqa
 
 LANGS = [('c', ['gcc', '-std=gnu99', '-x', 'c']), ('c++', ['g++', '-std=gnu++11', '-x', 'c++']),
          # a toolchain that predefines _MSC_VER (clang's MSVC-compatible front end; syntax and constant expressions only)
-         ('c-msvc', ['clang', '--target=x86_64-pc-windows-msvc', '-ffreestanding', '-std=gnu99', '-x', 'c'])]
+         ('c-msvc', ['clang', '--target=x86_64-pc-windows-msvc', '-ffreestanding', '-std=gnu99', '-x', 'c', '-isystem', os.path.join(core.ROOT, 'be', 'shim')])]
 
 
 def headers():
@@ -200,12 +200,16 @@ def run(prop, tier):
     # probe; GNU C accepts things C++ does not). What is left can only fail because of the other headers of a configuration.
     facts_l = {lang: {h: dict(facts[h]) for h in hs} for lang, cmd in LANGS}
     dropped = 0
+    nohost = set()      # (language, header): needs a system header this front end has no library for - not a property of the header
     for lang, cmd in LANGS:
         for h in hs:
             for _ in range(40):
                 text = tu_text((h,), facts_l[lang])
                 pp = subprocess.run(cmd + ['-fsyntax-only', '-w', '-I' + inc, '-'], input=text, stdout=subprocess.PIPE, stderr=subprocess.PIPE, text=True)
                 if pp.returncode == 0:
+                    break
+                if lang == 'c-msvc' and re.search(r"fatal error: '[^']+' file not found", pp.stderr) and not re.search(r"fatal error: 'avtp/", pp.stderr):
+                    nohost.add((lang, h))
                     break
                 lines = text.splitlines()
                 bad = set()
@@ -260,6 +264,12 @@ def run(prop, tier):
     jobs = []
     for ci, (kind, cfg) in enumerate(configs):
         for lang, cmd in LANGS:
+            if any((lang, h) in nohost for h in cfg):
+                cfg_l = tuple(h for h in cfg if (lang, h) not in nohost)
+                if len(cfg_l) < 2 and kind != 'single' or not cfg_l:
+                    continue
+                jobs.append((ci, kind, cfg_l, lang, cmd, tu_text(cfg_l, facts_l[lang])))
+                continue
             jobs.append((ci, kind, cfg, lang, cmd, tu_text(cfg, facts_l[lang])))
 
     def one(j):
@@ -334,12 +344,14 @@ def run(prop, tier):
             keep = tuple(h for h in cfg if h in drop and h != d or h not in drop) if False else tuple(h for h in cfg if h not in drop)
             break
         for lang, cmd in LANGS:
-            rjobs.append((0, kind + '-reduced', keep, lang, cmd, tu_text(keep, facts_l[lang])))
+            kl = tuple(h for h in keep if (lang, h) not in nohost)
+            rjobs.append((0, kind + '-reduced', kl, lang, cmd, tu_text(kl, facts_l[lang])))
         # and the complementary reduction: drop the earlier header instead
         drop2 = {a for (a, c) in pair_fail if a in cfg and c in cfg and cfg.index(a) < cfg.index(c)} | {h for h in cfg if h in single_fail}
         keep2 = tuple(h for h in cfg if h not in drop2)
         for lang, cmd in LANGS:
-            rjobs.append((0, kind + '-reduced', keep2, lang, cmd, tu_text(keep2, facts_l[lang])))
+            kl = tuple(h for h in keep2 if (lang, h) not in nohost)
+            rjobs.append((0, kind + '-reduced', kl, lang, cmd, tu_text(kl, facts_l[lang])))
     with cf.ThreadPoolExecutor(core.NCPU) as ex:
         for j, rc, err in ex.map(one, rjobs):
             res.counters['cases'] += 1
@@ -356,7 +368,7 @@ def run(prop, tier):
     samples = ['pair avtp/aaf/Aaf.h then avtp/aaf/Pcm.h in C99 and C++ with one static assertion per public name of both headers (value when included alone)',
                'full set of %d headers rotated by 7, C++' % len(hs)]
     core.finish('C20', tier, t0, res, rule='configurations = each header alone, all %d ordered pairs, full set in %d orders - sorted, reversed, rotations and a sequence-covering set of permutations in which every ordered triple of headers occurs in that relative order (thorough: + 200 further permutations and explicit triples through hub headers) x {gcc -std=gnu99, g++, clang for an MSVC target (predefines _MSC_VER)}; per header a probe structure declared after it must have the layout and stored bytes it has without the header; each TU includes the headers and asserts every public integer name (%d facts: macros, enumerators, sizeof) against its value when the header is included alone; a set/triple failure explained by a failing ordered pair inside it is attributed to the pair' % (len(hs) * (len(hs) - 1), len(full) if tier != 'thorough' else nrot + 2, nfacts),
-                bounds={'headers': len(hs), 'configurations': len(configs), 'languages': 3, 'facts': nfacts, 'facts_not_asserted_in_a_language_where_they_do_not_hold_alone': dropped, 'masked_by_pair': masked},
+                bounds={'headers': len(hs), 'configurations': len(configs), 'languages': 3, 'facts': nfacts, 'facts_not_asserted_in_a_language_where_they_do_not_hold_alone': dropped, 'headers_left_out_of_the_msvc_front_end_for_lack_of_a_system_header': sorted(h for l, h in nohost), 'masked_by_pair': masked},
                 assumptions=['GNU C as the project uses it (zero-length arrays accepted); -pedantic diagnostics are not violations', 'pairwise conflicts plus the sampled larger sets; a conflict needing three specific headers outside the enumerated sets is not seen in quick'],
                 recipe={'engine': 'c20'}, samples=samples, extra_cov={'compilations': len(jobs), 'planted_bug_selftest': 'a deliberately wrong value for %s %s made its translation unit fail, as required' % k0})
 
